@@ -88,6 +88,8 @@ pub enum Op {
     Clone(usize, usize),
     CloneEmpty(usize, usize),
     CloneEmptyIn(usize, usize, Bk),
+    /// clone_empty_in(<bk>) into the caller's frame, k pushes, read back, clone (Cloneable), pop, drop
+    CloneIn(usize, Bk, usize),
     Reserve(usize, usize, bool),
     ReserveExact(usize, usize, bool),
     ShrinkToFit(usize, bool),
@@ -291,6 +293,7 @@ pub fn parse_op(t: &[&str]) -> Op {
         ["clone", v, d] => Op::Clone(u(v), u(d)),
         ["clone_empty", v, d] => Op::CloneEmpty(u(v), u(d)),
         ["clone_empty_in", v, d, bk] => Op::CloneEmptyIn(u(v), u(d), parse_bk(bk)),
+        ["clone_in", v, bk, k] => Op::CloneIn(u(v), parse_bk(bk), u(k)),
         ["reserve", v, n] => Op::Reserve(u(v), u(n), false),
         ["reserve_exact", v, n] => Op::ReserveExact(u(v), u(n), false),
         ["shrink_to_fit", v] => Op::ShrinkToFit(u(v), false),
